@@ -87,6 +87,7 @@ CheckCase(c) ==
     [] c.ev = "smooth" -> CheckSmooth(c.id, c)
     [] c.ev = "band" -> CheckBand(c.id, c)
     [] c.ev = "raised" -> Verdict(c.id, "raised:" \o c.t, FALSE)
+    [] c.ev = "frame" -> Verdict(c.id, c.what, c.before = c.after)
     [] OTHER -> Verdict(c.id, "unknown-event", FALSE)
 
 Init == l = 1 /\ LoadCases
